@@ -111,6 +111,17 @@ func (ex *Exec) resolveType(s string) types.Type {
 	return tv.Type
 }
 
+// evalTypeArg evaluates an expression in type-argument position (typeis, cast): a package-level
+// type name wins over a local variable of the same name (api.go: verifyFuture := &verifyFuture{}).
+func (env *Env) evalTypeArg(e Expr) TV {
+	if id, ok := e.(*EIdent); ok {
+		if tn, ok := env.ex.prog.Pkg.Types.Scope().Lookup(id.Name).(*types.TypeName); ok {
+			return TV{T: tn.Type(), IsType: true}
+		}
+	}
+	return env.eval(e)
+}
+
 func isIntType(t types.Type) bool {
 	if t == nil {
 		return false
@@ -749,13 +760,13 @@ func (env *Env) evalCall(e *ECall) TV {
 		x := env.eval(e.Args[0])
 		var tt types.Type
 		if u, ok := e.Args[1].(*EUnary); ok && u.Op == "*" {
-			inner := env.eval(u.X)
+			inner := env.evalTypeArg(u.X)
 			if !inner.IsType {
 				efail("typeis: type expected")
 			}
 			tt = types.NewPointer(inner.T)
 		} else {
-			ty := env.eval(e.Args[1])
+			ty := env.evalTypeArg(e.Args[1])
 			if !ty.IsType {
 				efail("typeis(iface, Type) expected")
 			}
@@ -801,13 +812,13 @@ func (env *Env) evalCall(e *ECall) TV {
 		x := env.eval(e.Args[0])
 		var ty types.Type
 		if u, ok := e.Args[1].(*EUnary); ok && u.Op == "*" {
-			inner := env.eval(u.X)
+			inner := env.evalTypeArg(u.X)
 			if !inner.IsType {
 				efail("cast: type expected")
 			}
 			ty = types.NewPointer(inner.T)
 		} else {
-			tv := env.eval(e.Args[1])
+			tv := env.evalTypeArg(e.Args[1])
 			if !tv.IsType {
 				efail("cast: type expected")
 			}
